@@ -63,3 +63,10 @@ def splice (l : Bytes) (off : Nat) (xs : Bytes) : Bytes :=
 @[inline] def natOfI64 (x : Int64) : Nat := x.toNatClampNeg
 
 end Go
+
+/-- decidable equality on `Except` (used by `decide` in non-vacuity examples) -/
+instance instDecidableEqExcept {ε α : Type} [DecidableEq ε] [DecidableEq α] : DecidableEq (Except ε α)
+  | .ok a, .ok b => if h : a = b then isTrue (by rw [h]) else isFalse (fun e => h (by cases e; rfl))
+  | .error a, .error b => if h : a = b then isTrue (by rw [h]) else isFalse (fun e => h (by cases e; rfl))
+  | .ok _, .error _ => isFalse (fun e => by cases e)
+  | .error _, .ok _ => isFalse (fun e => by cases e)
